@@ -164,6 +164,26 @@ func setupRoutes(module *ast.Module, filePath string, forceInterpreter ...bool) 
 		}
 	}
 
+	// And for a computed default of a field of a declared input type, which
+	// applyCompiledInputDefaults would leave absent.
+	for _, item := range module.Items {
+		route, isRoute := item.(*ast.Route)
+		if !isRoute || !useCompiler {
+			continue
+		}
+		named, _ := route.InputType.(ast.NamedType)
+		for _, other := range module.Items {
+			if typeDef, ok := other.(*ast.TypeDef); ok && typeDef.Name == named.Name {
+				for _, field := range typeDef.Fields {
+					if _, literal := evalLiteralExpr(field.Default); field.Default != nil && !literal {
+						printInfo(fmt.Sprintf("Field %s.%s has a computed default, using interpreter mode", typeDef.Name, field.Name))
+						useCompiler = false
+					}
+				}
+			}
+		}
+	}
+
 	// Warn early when an LLM route has no provider configured, rather than
 	// letting every request fail with an opaque "undefined object" error.
 	if os.Getenv("GLYPH_LLM_PROVIDER") == "" && moduleInjectsLLM(module) {
